@@ -200,25 +200,3 @@ Section Consume.
           -- repeat split; auto; discriminate.
   Qed.
 End Consume.
-
-(* ---- the small scope swept by hier_terminates_small_scope ---------------------------------------- *)
-Definition small_occ : list (nat * option nat) :=
-  [(0, Some 1); (0, Some 2); (0, None); (1, Some 1); (1, Some 2); (1, None); (2, Some 2); (2, None)].
-Definition small_leafd (t : bool) (nm : nat) (o : nat * option nat) (kids : list decl) : decl :=
-  D (100 + nm) false t (fst o) (snd o) (LName nm) kids.
-Definition small_hiers : list (list decl) :=
-  flat_map (fun o1 => flat_map (fun n1 =>
-    [[small_leafd true n1 o1 []]] ++
-    flat_map (fun o2 => flat_map (fun n2 =>
-      [[small_leafd true n1 o1 []; small_leafd false n2 o2 []];
-       [small_leafd false n1 o1 [small_leafd true n2 o2 []]];
-       [D 100 true true (fst o1) (snd o1) (LRows 0) [small_leafd false n2 o2 []]]]) [1; 2]) small_occ)
-    [1; 2]) small_occ.
-Fixpoint words (alpha : list nat) (n : nat) : list (list nat) :=
-  match n with
-  | 0 => [[]]
-  | S k => [] :: flat_map (fun w => map (fun a => a :: w) alpha) (words alpha k)
-  end.
-Definition number (w : list nat) : list unt :=
-  (fix go (w : list nat) (i : nat) := match w with [] => [] | a :: r => U a i :: go r (S i) end) w 1.
-Definition small_words : list (list unt) := map number (words [1; 2; 24] 3).
